@@ -18,10 +18,12 @@ PROP = {
                   "branch, numeric keys or merged ordinals - is sorted and holds exactly the live documents (C17_segment_sorted_merge, C17_merge_keeps_live_documents, C17_merge_source_order), "
                   "all outside the known class F171 (Multivalued sort column with a live value-less document: C17_stack_multivalued_refuted). i64/date/f64 keys: the u64 images preserve the "
                   "order of the values (C17_i64_key_order, C17_f64_key_order, pinned sign bit), so sortedness of keys is sortedness of values (C17_numeric_spec_is_key_order). "
-                  "Partial: Str/Bytes keys are dictionary ordinals (rank among the segment's / merged terms); that ranks are order-isomorphic to byte order is exercised by the tie and the "
-                  "spec cases (spec_sorted on bytes) but not proved; uniqueness of the stable sorted permutation (std sort_by contract) is not proved - the tie compares modulo the order inside "
-                  "runs of equal keys, which the property leaves open; the merge of the per-document data is modelled at the logical level only (documents looked up through the mapping; "
-                  "deeper merge = C04). Tie: the Coq model replays every generated history (finalize, remap, apply_deletes with remapped opstamps, advance_deletes, reader pre-sort, stack/k-way "
+                  "Str/Bytes keys are dictionary ordinals, modelled as the rank of the term among the terms of the segment / of all merged segments: ranks order terms exactly like "
+                  "their bytes (C17_ordinal_key_order, C17_bytes_spec_is_key_order). std's stable sort_by is used through its contract only: any stable sorted permutation equals the "
+                  "model's insertion sort (C17_stable_sort_unique). Partial: that the real dictionaries (sorted term dictionary, merged_term_ord_mapping) assign exactly these ranks is "
+                  "C15's domain and is only exercised here by the tie/spec cases; the merge of the per-document data is modelled at the logical level only (documents looked up through "
+                  "the mapping; deeper merge = C04); the tie compares modulo the order inside runs of equal keys, which the property leaves open. "
+                  "Tie: the Coq model replays every generated history (finalize, remap, apply_deletes with remapped opstamps, advance_deletes, reader pre-sort, stack/k-way "
                   "merge) and must yield the observed segments; spec: spec_sorted on the field's own values (N / two's-complement Z / IEEE order / byte order) and spec_content (live ids per "
                   "segment = sequential meaning of the history, blind to sorting) evaluated in Coq on every observation, attachment checks (id via store = fast field = postings, tag, "
                   "field norm, tf, sort values) decided on every doc id after every commit and merge.",
